@@ -545,7 +545,11 @@ class C11H(Checker):
         from pulser_simulation import QutipEmulator
 
         k = op["op"]
-        if err[0] is not None:
+        if op.get("cfg", {}).get("with_leakage"):
+            # the basis dimension changes with leakage: initial states set
+            # before / after are not comparable
+            self.tainted = True
+        if err[0] is not None or getattr(self, "tainted", False):
             return
         if k == "e_set_evaluation_times":
             self.eval_times = op["value"]
